@@ -1460,7 +1460,8 @@ theorem select1_spec {rnd : Nat → Nat → Nat} {g : Group} {t : NetType} {p : 
     {excl : Option Nat} (hp : p ≠ .fixed) (hs : ∀ ty, BestIn (g.sets ty)) :
     (∀ x, select1 rnd g t p fi excl = .ok x →
       ∃ ty ∈ chain t p, (∃ e ∈ (g.sets ty.index).entries, e.d = x.d) ∧ excl ≠ some x.d ∧
-        (p.isMin = true → getMin (g.sets ty.index) excl = (some x.d, x.lat))) ∧
+        (p.isMin = true → getMin (g.sets ty.index) excl = (some x.d, x.lat)) ∧
+        x.sel = (preferAlt g x.d ty).index) ∧
     (select1 rnd g t p fi excl = .error .noAlive ↔
       g.n ≠ 0 ∧ ∀ ty ∈ chain t p, ∀ e ∈ (g.sets ty.index).entries, excl = some e.d) ∧
     (∀ e, select1 rnd g t p fi excl = .error e → e = .noAlive ∨ (e = .noDialers ∧ g.n = 0)) := by
@@ -1479,7 +1480,7 @@ theorem select1_spec {rnd : Nat → Nat → Nat} {g : Group} {t : NetType} {p : 
         · intro x hx
           simp only [Except.ok.injEq] at hx
           subst hx
-          exact ⟨ty, hty, hmem.1, hmem.2, by simp [Policy.isMin]⟩
+          exact ⟨ty, hty, hmem.1, hmem.2, by simp [Policy.isMin], rfl⟩
         · simp only [reduceCtorEq, ne_eq, false_iff, not_and]
           intro _ hall
           obtain ⟨e, he, hed⟩ := hmem.1
@@ -1520,7 +1521,7 @@ theorem select1_spec {rnd : Nat → Nat → Nat} {g : Group} {t : NetType} {p : 
         · intro x hx
           simp only [Except.ok.injEq] at hx
           subst hx
-          exact ⟨ty, hty, hal.1, hal.2, fun _ => hgm⟩
+          exact ⟨ty, hty, hal.1, hal.2, fun _ => hgm, rfl⟩
         · simp only [reduceCtorEq, ne_eq, false_iff, not_and]
           intro _ hall
           obtain ⟨e, he, hed⟩ := hal.1
@@ -1573,7 +1574,7 @@ theorem select_ok {rnd : Nat → Nat → Nat → Nat} {g : Group} {t : NetType} 
     simp only [Except.ok.injEq] at h
     subst h
     obtain ⟨ty, hty, hal⟩ := a1 r h1
-    exact Or.inl ⟨ty, (mem_tried g t strict ty).mpr (Or.inl hty), hal⟩
+    exact Or.inl ⟨ty, (mem_tried g t strict ty).mpr (Or.inl hty), hal.1, hal.2.1, hal.2.2.1⟩
   | error e =>
     rw [h1] at h
     rcases c1 e h1 with he | ⟨he, hn⟩
@@ -1582,7 +1583,7 @@ theorem select_ok {rnd : Nat → Nat → Nat → Nat} {g : Group} {t : NetType} 
       cases strict
       · simp only [Bool.not_false, if_true] at h
         obtain ⟨ty, hty, hal⟩ := a2 x h
-        exact Or.inl ⟨ty, (mem_tried g t false ty).mpr (Or.inr ⟨rfl, hty⟩), hal⟩
+        exact Or.inl ⟨ty, (mem_tried g t false ty).mpr (Or.inr ⟨rfl, hty⟩), hal.1, hal.2.1, hal.2.2.1⟩
       · simp only [Bool.not_true, Bool.false_eq_true, if_false] at h
         by_cases hn : g.n = 1
         · rw [if_pos hn, select1_lastResort _ _ _ _ hn] at h
@@ -3019,5 +3020,610 @@ theorem runSet_tol (h : List SetEv) : ∀ (s0 : ASet), (runSet s0 h).tol = s0.to
     cases e with
     | notify d a sn => exact (notify_frame s0 d a sn).2.1
     | setPolicy p sa => exact (setPolicy_frame s0 p sa).2.1
+
+
+/-! ### membership of the alive list = what the set was last told -/
+
+theorem isAlive_iff (s : ASet) (x : Nat) : s.isAlive x = true ↔ ∃ e ∈ s.entries, e.d = x := by
+  simp [ASet.isAlive]
+
+theorem phase2_ds {s : ASet} {d : Nat} (alive : Bool) (snap : Option Int) (h : IdxInv s) (hd : d < s.n) :
+    (phase2 s d alive snap).1.ds = s.ds := by
+  unfold phase2
+  cases snap with
+  | none => simp only; split <;> rfl
+  | some raw =>
+    simp only
+    obtain ⟨_, _, c, _⟩ := decide2_frame (record s d raw) d alive (raw + s.offs d) s.minL
+    simp only [ASet.ds, c]
+    cases hk : s.idx d with
+    | «at» k => rw [record_alive raw h hd hk]; simp [ds_setSl]
+    | init => rw [record_dead raw (by simp [hk])]
+    | notAlive => rw [record_dead raw (by simp [hk])]
+
+theorem mem_ds (s : ASet) (x : Nat) : x ∈ s.ds ↔ ∃ e ∈ s.entries, e.d = x := by
+  simp [ASet.ds]
+
+/-- after `NotifyLatencyChange(d, alive)` the alive list contains `d` iff `alive`; other members unchanged -/
+theorem alive_notify {s : ASet} {d : Nat} (alive : Bool) (snap : Option Int) (h : IdxInv s) (hd : d < s.n) (x : Nat) :
+    (∃ e ∈ (notify s d alive snap).1.entries, e.d = x) ↔
+      (if x = d then alive = true else ∃ e ∈ s.entries, e.d = x) := by
+  unfold notify
+  simp only
+  obtain ⟨h1, n1⟩ := idxInv_phase1 alive (if s.policy.isMin = true then snap else none) h hd
+  rw [← mem_ds, phase2_ds alive _ h1 (by rw [n1]; exact hd), mem_ds]
+  generalize (if s.policy.isMin = true then snap else none) = sn
+  unfold phase1
+  cases alive
+  · simp only [Bool.false_eq_true, if_false]
+    cases hk : s.idx d with
+    | «at» k =>
+      simp only
+      have hmem := fun e => mem_removeAt h hd hk e
+      have key : (∃ e ∈ (removeAt s d k).entries, e.d = x) ↔ (if x = d then False else ∃ e ∈ s.entries, e.d = x) := by
+        constructor
+        · rintro ⟨e, he, hed⟩
+          obtain ⟨he', hne⟩ := (hmem e).mp he
+          have : x ≠ d := by rw [← hed]; exact hne
+          simp only [this, if_false]
+          exact ⟨e, he', hed⟩
+        · intro hx
+          by_cases hxd : x = d
+          · simp [hxd] at hx
+          · simp only [hxd, if_false] at hx
+            obtain ⟨e, he, hed⟩ := hx
+            exact ⟨e, (hmem e).mpr ⟨he, by rw [hed]; exact hxd⟩, hed⟩
+      split
+      · rw [(calcMin_frame _).2.2.2.2.2.2.1]
+        exact key
+      · exact key
+    | init =>
+      have : ¬ ∃ e ∈ s.entries, e.d = d := by rw [← alive_iff h hd]; simp [hk]
+      simp only
+      by_cases hxd : x = d
+      · subst hxd; simp [this]
+      · simp [hxd]
+    | notAlive =>
+      have : ¬ ∃ e ∈ s.entries, e.d = d := by rw [← alive_iff h hd]; simp [hk]
+      simp only
+      by_cases hxd : x = d
+      · subst hxd; simp [this]
+      · simp [hxd]
+  · simp only [if_true]
+    cases hk : s.idx d with
+    | «at» k =>
+      have : ∃ e ∈ s.entries, e.d = d := (alive_iff h hd).mp ⟨k, hk⟩
+      simp only
+      by_cases hxd : x = d
+      · subst hxd; simp [this]
+      · simp [hxd]
+    | init =>
+      simp only
+      by_cases hxd : x = d
+      · subst hxd; simp [join]
+      · simp only [hxd, if_false, join, List.mem_append, List.mem_singleton]
+        constructor
+        · rintro ⟨e, he | he, hed⟩
+          · exact ⟨e, he, hed⟩
+          · subst he; exact absurd hed.symm hxd
+        · rintro ⟨e, he, hed⟩; exact ⟨e, Or.inl he, hed⟩
+    | notAlive =>
+      simp only
+      by_cases hxd : x = d
+      · subst hxd; simp [join]
+      · simp only [hxd, if_false, join, List.mem_append, List.mem_singleton]
+        constructor
+        · rintro ⟨e, he | he, hed⟩
+          · exact ⟨e, he, hed⟩
+          · subst he; exact absurd hed.symm hxd
+        · rintro ⟨e, he, hed⟩; exact ⟨e, Or.inl he, hed⟩
+
+theorem isAlive_notify {s : ASet} {d : Nat} (alive : Bool) (snap : Option Int) (h : IdxInv s) (hd : d < s.n) (x : Nat) :
+    (notify s d alive snap).1.isAlive x = if x = d then alive else s.isAlive x := by
+  have := alive_notify alive snap h hd x
+  rw [← isAlive_iff, ← isAlive_iff] at this
+  by_cases hxd : x = d
+  · simp only [hxd, if_true] at this ⊢
+    cases alive <;> cases hq : (notify s d _ snap).1.isAlive d <;> simp_all
+  · simp only [hxd, if_false] at this ⊢
+    cases hq : (notify s d alive snap).1.isAlive x <;> cases hr : s.isAlive x <;> simp_all
+
+theorem isAlive_setPolicy {s : ASet} (p : Policy) (snapAll : Nat → Option Int) (x : Nat) :
+    (setPolicy s p snapAll).isAlive x = s.isAlive x := by
+  have hds : (setPolicy s p snapAll).ds = s.ds := by
+    unfold setPolicy
+    split
+    · rfl
+    · simp only
+      split
+      · rfl
+      · obtain ⟨h1, _, _⟩ := resnap_spec { s with policy := p, lat := fun _ => none, minL := hour, minD := none }
+          snapAll s.entries (fun _ => none)
+        simp only [ASet.ds, (calcMin_frame _).2.2.2.2.2.2.1]
+        exact h1
+  have : ∀ (s : ASet), s.isAlive x = decide (x ∈ s.ds) := by
+    intro s
+    cases hq : s.isAlive x
+    · have : ¬ (∃ e ∈ s.entries, e.d = x) := by rw [← isAlive_iff]; simp [hq]
+      simp [mem_ds, this]
+    · have := (isAlive_iff s x).mp hq
+      simp [mem_ds, this]
+  rw [this, this, hds]
+
+/-- what the set was last told about `d` (none = never told) -/
+def lastTold (d : Nat) : List SetEv → Option Bool
+  | [] => none
+  | .notify d' a _ :: es =>
+    match lastTold d es with
+    | some b => some b
+    | none => if d' = d then some a else none
+  | .setPolicy _ _ :: es => lastTold d es
+
+theorem isAlive_run (x : Nat) (h : List SetEv) : ∀ (s : ASet), IdxInv s → HistMem s.n h →
+    (runSet s h).isAlive x = (lastTold x h).getD (s.isAlive x) := by
+  induction h with
+  | nil => intro s _ _; rfl
+  | cons e es ih =>
+    intro s hs hm
+    cases e with
+    | notify d a sn =>
+      obtain ⟨hd, hm'⟩ := hm
+      obtain ⟨h1, n1⟩ := idxInv_notify a sn hs hd
+      have := ih (notify s d a sn).1 h1 (by rw [n1]; exact hm')
+      show (runSet (notify s d a sn).1 es).isAlive x = _
+      rw [this, isAlive_notify a sn hs hd x]
+      simp only [lastTold]
+      cases lastTold x es with
+      | some b => rfl
+      | none =>
+        by_cases hxd : d = x
+        · subst hxd; simp
+        · have : ¬ x = d := fun h => hxd h.symm
+          simp [hxd, this]
+    | setPolicy p sa =>
+      obtain ⟨h1, n1⟩ := idxInv_setPolicy p sa hs
+      have := ih (setPolicy s p sa) h1 (by rw [n1]; exact hm)
+      show (runSet (setPolicy s p sa) es).isAlive x = _
+      rw [this, isAlive_setPolicy]
+      rfl
+
+
+theorem isAlive_notifyAll (alive : Nat → Bool) (snap : Nat → Option Int) (x : Nat) :
+    ∀ (ds : List Nat) (s : ASet), (∀ d ∈ ds, d < s.n) → IdxInv s →
+      (notifyAll s ds alive snap).1.isAlive x = if x ∈ ds then alive x else s.isAlive x := by
+  intro ds
+  induction ds with
+  | nil => intro s _ _; simp [notifyAll]
+  | cons d ds ih =>
+    intro s hds hs
+    rw [notifyAll_cons]
+    obtain ⟨h1, n1⟩ := idxInv_notify (alive d) (snap d) hs (hds d (by simp))
+    rw [ih _ (by intro d' hd'; rw [n1]; exact hds d' (by simp [hd'])) h1, isAlive_notify _ _ hs (hds d (by simp))]
+    by_cases hx : x ∈ ds
+    · simp [hx]
+    · by_cases hxd : x = d
+      · subst hxd; simp [hx]
+      · simp [hx, hxd]
+
+/-- the set `buildSelectionState` builds for type `t` -/
+def builtSet (g : Group) (p : Policy) (snap : Nat → Nat → Option Int) (t : Nat) : ASet :=
+  (notifyAll (ASet.new g.n g.tol g.offs p false (snap t)).1 (List.range g.n) (g.alive t) (snap t)).1
+
+theorem buildSets_eq (g : Group) (p : Policy) (snap : Nat → Nat → Option Int) (t : Nat) :
+    (buildSets g p snap).1 t = if t < 6 then builtSet g p snap t else ASet.init g.n g.tol g.offs p := by
+  unfold buildSets
+  have key : ∀ (ts : List Nat) (acc : (Nat → ASet) × List GCb),
+      ((ts.foldl (fun acc t =>
+        let r0 := ASet.new g.n g.tol g.offs p false (snap t)
+        let r1 := notifyAll r0.1 (List.range g.n) (g.alive t) (snap t)
+        (upd acc.1 t r1.1, acc.2 ++ (r0.2 ++ r1.2).map (fun b => (⟨b, t, false⟩ : GCb)))) acc).1 t) =
+        if t ∈ ts then builtSet g p snap t else acc.1 t := by
+    intro ts
+    induction ts with
+    | nil => intro acc; simp
+    | cons t' ts ih =>
+      intro acc
+      simp only [List.foldl_cons]
+      rw [ih]
+      by_cases h1 : t ∈ ts
+      · simp [h1]
+      · simp only [h1, if_false, upd, List.mem_cons]
+        by_cases h2 : t = t'
+        · subst h2; simp [builtSet]
+        · simp [h2]
+  rw [key]
+  simp [List.mem_range]
+
+theorem builtSet_isAlive (g : Group) (p : Policy) (snap : Nat → Nat → Option Int) (t d : Nat) (hd : d < g.n) :
+    (builtSet g p snap t).isAlive d = g.alive t d := by
+  unfold builtSet
+  obtain ⟨h0, n0⟩ := minv_notifyAll (fun _ => false) (snap t) (List.range g.n) (ASet.init g.n g.tol g.offs p)
+    (by intro d hd; exact List.mem_range.mp hd) (minv_init g.n g.tol g.offs p)
+  have n0' : (ASet.new g.n g.tol g.offs p false (snap t)).1.n = g.n := n0
+  have h0' : IdxInv (ASet.new g.n g.tol g.offs p false (snap t)).1 := h0.idx
+  rw [isAlive_notifyAll (g.alive t) (snap t) d (List.range g.n) (ASet.new g.n g.tol g.offs p false (snap t)).1
+    (by intro d' hd'; rw [n0']; exact List.mem_range.mp hd') h0']
+  simp [List.mem_range, hd]
+
+/-- every set's alive list agrees with the members' alive flags -/
+def Agree (g : Group) : Prop :=
+  g.hasSets = true → ∀ t, t < 6 → ∀ d, d < g.n → (g.sets t).isAlive d = g.alive t d
+
+theorem agree_gNew (n : Nat) (tol : Int) (offs : Nat → Int) (p : Policy) (fi : Int)
+    (alive : Nat → Nat → Bool) (snap : Nat → Nat → Option Int) :
+    Agree (gNew n tol offs p fi alive snap).1 := by
+  unfold gNew
+  simp only
+  cases hna : needsAlive p
+  · simp only [Bool.false_eq_true, if_false]
+    intro h; cases h
+  · simp only [if_true]
+    intro _ t ht d hd
+    simp only
+    rw [buildSets_eq, if_pos ht]
+    exact builtSet_isAlive (⟨n, tol, offs, p, fi, false, fun _ => ASet.init n tol offs p, alive⟩ : Group) p snap t d hd
+
+theorem agree_step {g : Group} {e : GEv} (hg : GMInv g) (ha : Agree g) (hm : GHistMem g.n [e]) :
+    Agree (stepG g e) := by
+  cases e with
+  | notify t d a sn =>
+    have hd : d < g.n := hm.1
+    simp only [stepG, gNotify]
+    cases hh : g.hasSets
+    · simp only [Bool.false_eq_true, if_false]
+      intro h; cases h
+    · simp only [if_true]
+      intro _ t' ht' d' hd'
+      simp only [upd]
+      obtain ⟨i1, i2⟩ := hg.sets t
+      by_cases h1 : t' = t
+      · subst h1
+        simp only [if_true]
+        rw [isAlive_notify a sn i1.idx (by rw [i2]; exact hd)]
+        by_cases h2 : d' = d
+        · simp [h2, upd]
+        · simp only [h2, if_false, upd]
+          exact ha hh t' ht' d' hd'
+      · simp only [h1, if_false]
+        exact ha hh t' ht' d' hd'
+  | setPolicy p fi snap =>
+    simp only [stepG, gSetPolicy]
+    cases h1 : needsAlive g.policy <;> cases h2 : needsAlive p
+    · simp only; exact ha
+    · simp only
+      intro _ t ht d hd
+      simp only
+      rw [buildSets_eq, if_pos ht]
+      exact builtSet_isAlive g p snap t d hd
+    · simp only; intro h; cases h
+    · simp only
+      have hh : g.hasSets = true := by rw [hg.hasSets, h1]
+      intro _ t ht d hd
+      simp only
+      split
+      · rw [isAlive_setPolicy]; exact ha hh t ht d hd
+      · exact ha hh t ht d hd
+
+theorem agree_run (h : List GEv) : ∀ (g : Group), GMInv g → Agree g → GHistMem g.n h → Agree (runG g h) := by
+  induction h with
+  | nil => intro g _ ha _; exact ha
+  | cons e es ih =>
+    intro g hg ha hm
+    have hm1 : GHistMem g.n [e] := by
+      cases e with
+      | notify t d a sn => exact ⟨hm.1, trivial⟩
+      | setPolicy p fi sn => trivial
+    obtain ⟨h1, h2⟩ := gminv_step hg hm1
+    refine ih (stepG g e) h1 (agree_step hg ha hm1) ?_
+    rw [h2]
+    cases e with
+    | notify t d a sn => exact hm.2
+    | setPolicy p fi sn => exact hm
+
+
+/-- what it means that domain `ty` admitted the answer `x` -/
+def Admitted (g : Group) (excl : Option Nat) (ty : NetType) (x : SelOk) : Prop :=
+  (∃ e ∈ (g.sets ty.index).entries, e.d = x.d) ∧ excl ≠ some x.d ∧
+  (g.policy.isMin = true → getMin (g.sets ty.index) excl = (some x.d, x.lat)) ∧
+  x.sel = (preferAlt g x.d ty).index
+
+/-- structure of a successful `SelectWithExclusionResult` under random/min: admitted by the
+requested chain; or — only when not strict and the requested chain has nothing selectable — by
+the other family's chain; or the single-node last resort. -/
+theorem select_ok_full {rnd : Nat → Nat → Nat → Nat} {g : Group} {t : NetType} {strict : Bool}
+    {excl : Option Nat} (hp : g.policy ≠ .fixed) (hs : ∀ ty, BestIn (g.sets ty)) {x : SelOk}
+    (h : select rnd g t strict excl = .ok x) :
+    (∃ ty ∈ chain t g.policy, Admitted g excl ty x) ∨
+    (strict = false ∧ (∀ ty ∈ chain t g.policy, ∀ e ∈ (g.sets ty.index).entries, excl = some e.d) ∧
+      ∃ ty ∈ chain t.flip g.policy, Admitted g excl ty x) ∨
+    (strict = true ∧ g.n = 1 ∧ x = ⟨0, dialTimeout, (preferAlt g 0 t).index⟩ ∧
+      ∀ ty ∈ chain t g.policy, ∀ e ∈ (g.sets ty.index).entries, excl = some e.d) := by
+  obtain ⟨a1, b1, c1⟩ := select1_spec (rnd := rnd 0) (g := g) (t := t) (fi := g.fixedIdx) (excl := excl) hp hs
+  obtain ⟨a2, b2, c2⟩ := select1_spec (rnd := rnd 1) (g := g) (t := t.flip) (fi := g.fixedIdx) (excl := excl) hp hs
+  unfold select at h
+  cases h1 : select1 (rnd 0) g t g.policy g.fixedIdx excl with
+  | ok r =>
+    rw [h1] at h
+    simp only [Except.ok.injEq] at h
+    subst h
+    obtain ⟨ty, hty, hal⟩ := a1 r h1
+    exact Or.inl ⟨ty, hty, hal⟩
+  | error e =>
+    rw [h1] at h
+    rcases c1 e h1 with he | ⟨he, hn⟩
+    · subst he
+      simp only at h
+      cases strict
+      · simp only [Bool.not_false, if_true] at h
+        obtain ⟨ty, hty, hal⟩ := a2 x h
+        exact Or.inr (Or.inl ⟨rfl, (b1.mp h1).2, ty, hty, hal⟩)
+      · simp only [Bool.not_true, Bool.false_eq_true, if_false] at h
+        by_cases hn : g.n = 1
+        · rw [if_pos hn, select1_lastResort _ _ _ _ hn] at h
+          simp only [Except.ok.injEq] at h
+          subst h
+          exact Or.inr (Or.inr ⟨rfl, hn, rfl, (b1.mp h1).2⟩)
+        · rw [if_neg hn] at h; cases h
+    · subst he; simp only at h; cases h
+
+/-- under random/min the only errors are "no alive" and, for an empty group, "no dialers" -/
+theorem select_error_cases {rnd : Nat → Nat → Nat → Nat} {g : Group} {t : NetType} {strict : Bool}
+    {excl : Option Nat} (hp : g.policy ≠ .fixed) (hs : ∀ ty, BestIn (g.sets ty)) {e : SelErr}
+    (h : select rnd g t strict excl = .error e) : e = .noAlive ∨ (e = .noDialers ∧ g.n = 0) := by
+  obtain ⟨_, _, c1⟩ := select1_spec (rnd := rnd 0) (g := g) (t := t) (fi := g.fixedIdx) (excl := excl) hp hs
+  obtain ⟨_, _, c2⟩ := select1_spec (rnd := rnd 1) (g := g) (t := t.flip) (fi := g.fixedIdx) (excl := excl) hp hs
+  unfold select at h
+  cases h1 : select1 (rnd 0) g t g.policy g.fixedIdx excl with
+  | ok r => rw [h1] at h; cases h
+  | error e1 =>
+    rw [h1] at h
+    rcases c1 e1 h1 with he | ⟨he, hn⟩
+    · subst he
+      simp only at h
+      cases strict
+      · simp only [Bool.not_false, if_true] at h
+        exact c2 e h
+      · simp only [Bool.not_true, Bool.false_eq_true, if_false] at h
+        by_cases hn : g.n = 1
+        · rw [if_pos hn, select1_lastResort _ _ _ _ hn] at h; cases h
+        · rw [if_neg hn] at h; cases h; exact Or.inl rfl
+    · subst he
+      simp only at h
+      cases h
+      exact Or.inr ⟨rfl, hn⟩
+
+theorem preferAlt_spec (g : Group) (d : Nat) (t : NetType) :
+    (preferAlt g d t = t ∨ preferAlt g d t = t.flip) ∧
+    (g.alive t.index d = true ∨ g.alive t.flip.index d = true → g.alive (preferAlt g d t).index d = true) ∧
+    (g.alive t.index d = true → preferAlt g d t = t) := by
+  unfold preferAlt
+  cases h1 : g.alive t.index d <;> cases h2 : g.alive t.flip.index d <;> simp [h1, h2]
+
+/-- the tolerance bound for `GetMinLatency(excluded)`: no alive measured node other than the
+excluded one beats the returned latency by the tolerance or more -/
+theorem getMin_tolerance_excl {s : ASet} (hs : SInv s) (hm : s.policy.isMin = true) {excl : Option Nat}
+    {d : Nat} {L : Int} (h : getMin s excl = (some d, L)) :
+    ∀ e ∈ s.entries, s.lat e.d ≠ none → excl ≠ some e.d → ¬ beats s.tol e.sl L := by
+  obtain ⟨_, _, h3, h4⟩ := scanMin_spec s.entries excl
+  rcases getMin_cases s excl with ⟨b, hb, _, hg⟩ | ⟨hc, hg⟩
+  · rw [hg] at h
+    have hL : s.minL = L := by simpa using congrArg (·.2) h
+    subst hL
+    intro e he hl _
+    exact hs.tolBound hm e he hl
+  · rw [hg] at h
+    split at h
+    · have h2 : (scanMin s.entries excl).2 = L := by rw [h]
+      intro e he _ hne hbt
+      have := h4 e he hne
+      rw [h2] at this
+      unfold beats at hbt
+      omega
+    · cases h
+
+
+/-! ### world level: histories of samples discharge `mono` -/
+
+theorem snapshot_isSome_pen (c : Coll) (p : Policy) (pen pen' : Int) :
+    (c.snapshot p pen).isSome = (c.snapshot p pen').isSome := by
+  cases p <;> simp [Coll.snapshot] <;> split <;> rfl
+
+theorem setPolicy_lat {s : ASet} (p : Policy) (sa : Nat → Option Int) (x : Nat)
+    (h : (setPolicy s p sa).lat x ≠ none) : (s.policy = p ∧ s.lat x ≠ none) ∨ sa x ≠ none := by
+  unfold setPolicy at h
+  by_cases hp : s.policy = p
+  · rw [if_pos hp] at h; exact Or.inl ⟨hp, h⟩
+  · rw [if_neg hp] at h
+    simp only at h
+    cases hm : p.isMin
+    · simp [hm] at h
+    · simp only [hm, Bool.not_true, Bool.false_eq_true, if_false] at h
+      obtain ⟨_, _, h3⟩ := resnap_spec { s with policy := p, lat := fun _ => none, minL := hour, minD := none }
+        sa s.entries (fun _ => none)
+      rw [(calcMin_frame _).2.2.2.2.2.1] at h
+      simp only at h
+      rw [h3 x] at h
+      right
+      intro hn
+      rw [hn] at h
+      simp at h
+
+theorem builtSet_good (g : Group) (p : Policy) (snap : Nat → Nat → Option Int) (t : Nat) :
+    Good g.n g.tol g.offs p (builtSet g p snap t) ∧
+    (∀ x, (builtSet g p snap t).lat x ≠ none → snap t x ≠ none) := by
+  unfold builtSet
+  have h0 := good_notifyAll (p := p) (snap t) (fun _ => false) (List.range g.n) (ASet.init g.n g.tol g.offs p)
+    (by intro d hd; exact List.mem_range.mp hd) (good_init g.n g.tol g.offs p) (by intro x hx; simp [ASet.init] at hx)
+  exact good_notifyAll (p := p) (snap t) (g.alive t) (List.range g.n) (ASet.new g.n g.tol g.offs p false (snap t)).1
+    (by intro d hd; exact List.mem_range.mp hd) h0.1 h0.2
+
+/-- every `sample`/`told` names a member and samples are positive durations (≥ 1 ns) -/
+def WHistOk (n : Nat) : List WEv → Prop
+  | [] => True
+  | .sample _ d l :: es => d < n ∧ 1 ≤ l ∧ WHistOk n es
+  | .told _ d _ :: es => d < n ∧ WHistOk n es
+  | .pen _ _ _ :: es => WHistOk n es
+  | .policy _ _ :: es => WHistOk n es
+
+/-- a latency a set has recorded is backed by the dialer's collection (under the group's policy) -/
+def Link (w : World) : Prop :=
+  w.g.hasSets = true → ∀ t d, (w.g.sets t).lat d ≠ none →
+    ((w.colls t d).snapshot w.g.policy 0).isSome = true
+
+structure WInv (n : Nat) (w : World) : Prop where
+  ginv : GInv w.g
+  link : Link w
+  hn : w.g.n = n
+
+theorem isSome_ne_none {α} (o : Option α) : o.isSome = true ↔ o ≠ none := by
+  cases o <;> simp
+
+theorem winv_new (n : Nat) (tol : Int) (offs : Nat → Int) (p : Policy) (fi : Int)
+    (alive : Nat → Nat → Bool) (colls : Nat → Nat → Coll) (pens : Nat → Nat → Int) :
+    WInv n (worldNew n tol offs p fi alive colls pens) := by
+  refine ⟨ginv_gNew _ _ _ _ _ _ _, ?_, ?_⟩
+  · unfold Link worldNew gNew
+    simp only
+    cases hna : needsAlive p
+    · simp only [Bool.false_eq_true, if_false]; intro h; cases h
+    · simp only [if_true]
+      intro _ t d hl
+      rw [buildSets_eq] at hl
+      split at hl
+      · have := (builtSet_good (⟨n, tol, offs, p, fi, false, fun _ => ASet.init n tol offs p, alive⟩ : Group) p
+          (fun t d => (colls t d).snapshot p (pens t d)) t).2 d hl
+        rw [snapshot_isSome_pen _ _ 0 (pens t d), isSome_ne_none]
+        exact this
+      · simp [ASet.init] at hl
+  · unfold worldNew gNew; simp only; split <;> rfl
+
+theorem gNotify_frame (g : Group) (t d : Nat) (a : Bool) (sn : Option Int) :
+    (gNotify g t d a sn).1.n = g.n ∧ (gNotify g t d a sn).1.policy = g.policy ∧
+    (gNotify g t d a sn).1.hasSets = g.hasSets ∧
+    (gNotify g t d a sn).1.sets = (if g.hasSets then upd g.sets t (notify (g.sets t) d a sn).1 else g.sets) := by
+  unfold gNotify
+  cases g.hasSets <;> simp
+
+theorem winv_notify {n : Nat} {w : World} (hw : WInv n w) {t d : Nat} (a : Bool) (hd : d < n)
+    (hsnap : ((w.colls t d).snapshot w.g.policy 0).isSome = true → (w.snap w.g.policy t d).isSome = true) :
+    WInv n { w with g := (gNotify w.g t d a (w.snap w.g.policy t d)).1 } := by
+  obtain ⟨f1, f2, f3, f4⟩ := gNotify_frame w.g t d a (w.snap w.g.policy t d)
+  have ok : GEvOk w.g (.notify t d a (w.snap w.g.policy t d)) := by
+    intro hh
+    obtain ⟨i1, i2, i3, i4, i5⟩ := hw.ginv.sets hh t
+    refine ⟨by rw [i3, hw.hn]; exact hd, ?_⟩
+    intro _ hl
+    have := hsnap (hw.link hh t d hl)
+    exact (isSome_ne_none _).mp this
+  refine ⟨ginv_step hw.ginv ok, ?_, by show (gNotify w.g t d a _).1.n = n; rw [f1]; exact hw.hn⟩
+  intro hh t' d' hl
+  simp only at hh hl ⊢
+  rw [f3] at hh
+  rw [f2]
+  rw [f4, hh] at hl
+  simp only [if_true, upd] at hl
+  by_cases ht : t' = t
+  · subst ht
+    simp only [if_true] at hl
+    rcases (notify_frame (w.g.sets t') d a (w.snap w.g.policy t' d)).2.2.2.2 d' hl with h | ⟨h1, h2⟩
+    · exact hw.link hh t' d' h
+    · subst h1
+      have : (w.snap w.g.policy t' d').isSome = true := (isSome_ne_none _).mpr h2
+      unfold World.snap at this
+      rw [snapshot_isSome_pen _ _ 0 (w.pens t' d')]
+      exact this
+  · simp only [ht, if_false] at hl
+    exact hw.link hh t' d' hl
+
+theorem winv_step {n : Nat} {w : World} {e : WEv} (hw : WInv n w) (ok : WHistOk n [e]) :
+    WInv n (stepW w e) := by
+  cases e with
+  | told t d a =>
+    have hd : d < n := ok.1
+    show WInv n { w with g := (gNotify w.g t d a (w.snap w.g.policy t d)).1 }
+    exact winv_notify hw a hd (by
+      intro h; unfold World.snap; rw [snapshot_isSome_pen _ _ (w.pens t d) 0]; exact h)
+  | sample t d l =>
+    obtain ⟨hd, hl, _⟩ := ok
+    -- the world with the sample appended still satisfies the invariant (sets untouched so far)
+    have hw1 : WInv n { w with colls := upd w.colls t (upd (w.colls t) d ((w.colls t d).append l)) } := by
+      refine ⟨hw.ginv, ?_, hw.hn⟩
+      intro hh t' d' hlat
+      simp only at hh hlat ⊢
+      have := hw.link hh t' d' hlat
+      simp only [upd]
+      by_cases ht : t' = t
+      · subst ht
+        by_cases hdd : d' = d
+        · subst hdd
+          simp only [if_true, upd]
+          exact snapshot_stays _ _ 0 0 l hl this
+        · simp only [if_true, upd, hdd, if_false]; exact this
+      · simp only [ht, if_false]; exact this
+    show WInv n { ({ w with colls := upd w.colls t (upd (w.colls t) d ((w.colls t d).append l)) } : World) with
+      g := (gNotify w.g t d true (World.snap { w with colls := upd w.colls t (upd (w.colls t) d ((w.colls t d).append l)) } w.g.policy t d)).1 }
+    exact winv_notify hw1 true hd (by
+      intro h; unfold World.snap; rw [snapshot_isSome_pen _ _ _ 0]; exact h)
+  | pen t d v =>
+    show WInv n { w with pens := upd w.pens t (upd (w.pens t) d v) }
+    exact ⟨hw.ginv, hw.link, hw.hn⟩
+  | policy p fi =>
+    show WInv n { w with g := (gSetPolicy w.g p fi (fun t d => w.snap p t d)).1 }
+    have hg' : GInv (gSetPolicy w.g p fi (fun t d => w.snap p t d)).1 :=
+      ginv_step (e := .setPolicy p fi (fun t d => w.snap p t d)) hw.ginv trivial
+    refine ⟨hg', ?_, ?_⟩
+    · intro hh t d hl
+      simp only at hh hl ⊢
+      have key : ∀ x, w.snap p t x ≠ none → ((w.colls t x).snapshot p 0).isSome = true := by
+        intro x hx
+        unfold World.snap at hx
+        rw [snapshot_isSome_pen _ _ 0 (w.pens t x)]
+        exact (isSome_ne_none _).mpr hx
+      unfold gSetPolicy at hh hl ⊢
+      cases h1 : needsAlive w.g.policy <;> cases h2 : needsAlive p
+      · simp only [h1, h2] at hh; rw [hw.ginv.hasSets, h1] at hh; cases hh
+      · simp only [h1, h2] at hl ⊢
+        rw [buildSets_eq] at hl
+        split at hl
+        · exact key d ((builtSet_good w.g p (fun t d => w.snap p t d) t).2 d hl)
+        · simp [ASet.init] at hl
+      · simp only [h1, h2] at hh; cases hh
+      · simp only [h1, h2] at hl ⊢
+        have hhs : w.g.hasSets = true := by rw [hw.ginv.hasSets, h1]
+        obtain ⟨i1, i2, _⟩ := hw.ginv.sets hhs t
+        split at hl
+        · rcases setPolicy_lat p (fun d => w.snap p t d) d hl with ⟨hp, hold⟩ | hs
+          · have := hw.link hhs t d hold
+            rw [← i2, hp] at this
+            exact this
+          · exact key d hs
+        · rename_i hpp
+          have hpe : w.g.policy = p := by
+            apply Classical.byContradiction; intro h; exact hpp h
+          have := hw.link hhs t d hl
+          rw [hpe] at this
+          exact this
+    · show (gSetPolicy w.g p fi _).1.n = n
+      unfold gSetPolicy
+      cases needsAlive w.g.policy <;> cases needsAlive p <;> exact hw.hn
+
+theorem winv_run {n : Nat} (h : List WEv) : ∀ (w : World), WInv n w → WHistOk n h → WInv n (runW w h) := by
+  induction h with
+  | nil => intro w hw _; exact hw
+  | cons e es ih =>
+    intro w hw ok
+    have ok1 : WHistOk n [e] := by
+      cases e with
+      | sample t d l => exact ⟨ok.1, ok.2.1, trivial⟩
+      | told t d a => exact ⟨ok.1, trivial⟩
+      | pen t d v => trivial
+      | policy p fi => trivial
+    have okr : WHistOk n es := by
+      cases e with
+      | sample t d l => exact ok.2.2
+      | told t d a => exact ok.2
+      | pen t d v => exact ok
+      | policy p fi => exact ok
+    exact ih (stepW w e) (winv_step hw ok1) okr
 
 end DaeVerif.C15
